@@ -37,8 +37,8 @@ META = {
                      'probe:removed-id-reused': 5000, 'exhaustive-histories': 100000},
     },
 }
-CASES = {'quick': 2400, 'thorough': 150000}
-SECONDS = {'quick': 60, 'thorough': 1500}
+CASES = {'quick': 1400, 'thorough': 150000}
+SECONDS = {'quick': 60, 'thorough': 600}
 
 TINY_SPEC = {
     'formatVersion': '1.0.0', 'defines': {'id': 'org.mtv.tiny', 'version': '1.0.0'},
